@@ -313,6 +313,10 @@ impl Index for HnswIndex {
             }
         }
 
+        // Inserting an id makes it live again: a tombstone left by an earlier delete() would
+        // keep the new vector out of every rebuild and drop it at the next compaction.
+        self.tombstones.write().remove(&id);
+
         // Check for duplicate ID and update in place if found
         {
             let mut vectors = self.vectors.write();
@@ -363,6 +367,7 @@ impl Index for HnswIndex {
                     ));
                 }
             }
+            self.tombstones.write().remove(id);
             {
                 let mut vectors = self.vectors.write();
                 if let Some(pos) = vectors
